@@ -2880,6 +2880,71 @@ static Type check_expression_impl(ASTNode *expr, Environment *env) {
 }
 
 /* Internal implementation - do not call directly */
+/* Does a `break` in this statement leave the loop the statement is the body of? */
+static bool stmt_breaks_out(ASTNode *stmt) {
+    if (!stmt) return false;
+    switch (stmt->type) {
+        case AST_BREAK:
+            return true;
+        case AST_BLOCK:
+            for (int i = 0; i < stmt->as.block.count; i++) {
+                if (stmt_breaks_out(stmt->as.block.statements[i])) return true;
+            }
+            return false;
+        case AST_UNSAFE_BLOCK:
+            for (int i = 0; i < stmt->as.unsafe_block.count; i++) {
+                if (stmt_breaks_out(stmt->as.unsafe_block.statements[i])) return true;
+            }
+            return false;
+        case AST_IF:
+            return stmt_breaks_out(stmt->as.if_stmt.then_branch) ||
+                   stmt_breaks_out(stmt->as.if_stmt.else_branch);
+        case AST_MATCH:
+            for (int i = 0; i < stmt->as.match_expr.arm_count; i++) {
+                if (stmt_breaks_out(stmt->as.match_expr.arm_bodies[i])) return true;
+            }
+            return false;
+        default:
+            return false;   /* a break inside a nested loop leaves that loop */
+    }
+}
+
+/* Can control not reach the end of this statement?  True when every path through it
+ * ends in a return, or in a `while true` that is never left. */
+static bool stmt_always_returns(ASTNode *stmt) {
+    if (!stmt) return false;
+    switch (stmt->type) {
+        case AST_RETURN:
+            return true;
+        case AST_BLOCK:
+            for (int i = 0; i < stmt->as.block.count; i++) {
+                if (stmt_always_returns(stmt->as.block.statements[i])) return true;
+            }
+            return false;
+        case AST_UNSAFE_BLOCK:
+            for (int i = 0; i < stmt->as.unsafe_block.count; i++) {
+                if (stmt_always_returns(stmt->as.unsafe_block.statements[i])) return true;
+            }
+            return false;
+        case AST_IF:
+            return stmt->as.if_stmt.else_branch &&
+                   stmt_always_returns(stmt->as.if_stmt.then_branch) &&
+                   stmt_always_returns(stmt->as.if_stmt.else_branch);
+        case AST_MATCH:
+            for (int i = 0; i < stmt->as.match_expr.arm_count; i++) {
+                if (!stmt_always_returns(stmt->as.match_expr.arm_bodies[i])) return false;
+            }
+            return stmt->as.match_expr.arm_count > 0;
+        case AST_WHILE:
+            return stmt->as.while_stmt.condition &&
+                   stmt->as.while_stmt.condition->type == AST_BOOL &&
+                   stmt->as.while_stmt.condition->as.bool_val &&
+                   !stmt_breaks_out(stmt->as.while_stmt.body);
+        default:
+            return false;
+    }
+}
+
 static Type check_statement_impl(TypeChecker *tc, ASTNode *stmt);
 
 /* Check statement and return its type (for blocks) (wrapper with recursion depth tracking) */
@@ -5589,6 +5654,14 @@ sdef.is_pub = item->as.struct_def.is_pub;            /* Propagate public visibil
             /* Check function body */
             check_statement(&tc, item->as.function.body);
 
+            /* A function with a result returns on every path */
+            if (item->as.function.return_type != TYPE_VOID && item->as.function.body &&
+                !stmt_always_returns(item->as.function.body)) {
+                TC_ERRORF("Error at line %d, column %d: Function '%s' does not return a value on every path\n",
+                        item->line, item->column, item->as.function.name);
+                tc.has_error = true;
+            }
+
             /* Check for unused variables before leaving scope */
             check_unused_variables(&tc, saved_symbol_count);
 
@@ -6270,6 +6343,14 @@ sdef.is_pub = item->as.struct_def.is_pub;            /* Propagate public visibil
 
             /* Check function body */
             check_statement(&tc, item->as.function.body);
+
+            /* A function with a result returns on every path */
+            if (item->as.function.return_type != TYPE_VOID && item->as.function.body &&
+                !stmt_always_returns(item->as.function.body)) {
+                TC_ERRORF("Error at line %d, column %d: Function '%s' does not return a value on every path\n",
+                        item->line, item->column, item->as.function.name);
+                tc.has_error = true;
+            }
 
             /* Check for unused variables before leaving scope */
             check_unused_variables(&tc, saved_symbol_count);
